@@ -608,15 +608,15 @@ func c32(c *an.Check) {
 
 func init() {
 	register(&Def{ID: "C30", Run: c30,
-		Explain:     "Decides on SSA: (CONCAT) ComputeProtocolHash digests (session id, protocol id, context) such that every operand except the last is fixed-length by provenance (the session id is ComputeSessionID's 32-byte result at every call site / the once-written linkState.sessionID) or immediately preceded by an encoding of its own length, and all three inputs are bound; (R1/SIBLING) both the advertising filter and the match resolver accept a solicitation only past (peer constraint empty or == link remote peer) and (transport constraint 0 or == link transport), and the resolver additionally only when the hash recomputed from that directive's own (protocol id, context) equals the stream's hash; solicitation state only under its guards (LOCKSET). The length prefix must be an injective encoding of len (recognised integer encoder, no narrowing below 32 bits).",
+		Explain:     "Decides on SSA: (CONCAT) ComputeProtocolHash digests (session id, protocol id, context) such that every operand except the last is fixed-length by provenance (the session id is ComputeSessionID's 32-byte result at every call site / the once-written linkState.sessionID) or immediately preceded by an encoding of its own length, and all three inputs are bound; (R1/SIBLING) both the advertising filter and the match resolver accept a solicitation only past (peer constraint empty or == link remote peer) and (transport constraint 0 or == link transport), and the resolver additionally only when the hash recomputed from that directive's own (protocol id, context) equals the stream's hash; solicitation state only under its guards (LOCKSET). The length prefix must be an injective encoding of len (recognised integer encoder, no narrowing below 32 bits). (PROVENANCE) mounted-link accessors forward to the same-named link accessor; RecvMsg freshness and SendMsg framing shared with C08.",
 		NotCov:      "collision resistance of BLAKE3 and the remote side's behaviour.",
 		Assumptions: commonAssumptions})
 	register(&Def{ID: "C31", Run: c31,
-		Explain:     "Decides on SSA: AcceptMountedStream returns the stream only on paths where, under the mutex, accepted was false and err nil, having set accepted=true; Close closes the stream only when not accepted and marks the value closed; (LOOPALLOC) the controller constructs the ownership wrapper once per stream, not once per matching solicitation; (LOCKSET) accepted and err are touched only under mu (including the closed-error check), controller state only under its broadcast lock. Every return of Close past the underlying stream's Close has the value marked closed, whatever that Close returned.",
+		Explain:     "Decides on SSA: AcceptMountedStream returns the stream only on paths where, under the mutex, accepted was false and err nil, having set accepted=true; Close closes the stream only when not accepted and marks the value closed; (LOOPALLOC) the controller constructs the ownership wrapper once per stream, not once per matching solicitation; (LOCKSET) accepted and err are touched only under mu (including the closed-error check), controller state only under its broadcast lock. Every return of Close past the underlying stream's Close has the value marked closed, whatever that Close returned. (ORDER/WHO) the solicited-stream handler reports success once it handed the stream over and closes no stream itself.",
 		NotCov:      "scheduling-level outcomes beyond lock discipline; handler-side behaviour after acceptance.",
 		Assumptions: commonAssumptions})
 	register(&Def{ID: "C32", Run: c32,
-		Explain:     "Decides on SSA: (ROLE) ComputeSessionID hashes exactly its two parameters with the first operand <= the second on every path (phi-swapped min/max), so both argument orders give one digest; operands are self-delimiting peer IDs and the result is a fixed 32-byte prefix; FindMatchingHashes records an element only on the bytes.Compare(local[i],remote[j])==0 edge, as a clone of local[i], and advances both cursors there. (ORDER) on the three ways back to the merge loop's head the cursors move as a sorted merge (==: both, <: local, >: remote); ComputeProtocolHashes returns its list sorted, with bytes.Compare — the merge's comparator.",
+		Explain:     "Decides on SSA: (ROLE) ComputeSessionID hashes exactly its two parameters with the first operand <= the second on every path (phi-swapped min/max), so both argument orders give one digest; operands are self-delimiting peer IDs and the result is a fixed 32-byte prefix; FindMatchingHashes records an element only on the bytes.Compare(local[i],remote[j])==0 edge, as a clone of local[i], and advances both cursors there. (ORDER) on the three ways back to the merge loop's head the cursors move as a sorted merge (==: both, <: local, >: remote); ComputeProtocolHashes returns its list sorted, with bytes.Compare — the merge's comparator. The premise that peer ids are self-delimiting: exact-length multihash decode obligations (C10's, without the identity-only clause); RecvMsg freshness.",
 		NotCov:      "that the merge equals set intersection for all sorted inputs with duplicates (value-level algorithm).",
 		Assumptions: commonAssumptions})
 }
